@@ -23,7 +23,7 @@ CONSTANTS ClickX, ClickY,   \* doubled pointer positions
           SimLen            \* length of the recorded behaviours (Sim only)
 
 VARIABLES st,     \* the tool
-          hist    \* Sim only: the steps taken so far
+          hist    \* Sim only: the steps taken so far (printed with the expected observations by Flush)
 vars == <<st, hist>>
 
 Pick(S) == IF Sim THEN {RandomElement(S)} ELSE S
@@ -214,6 +214,9 @@ EditsAreLocal ==
             /\ \A k2 \in KindSet : \A j \in 1..Len(st.shapes[k2]) :
                    <<k2, j>> # <<k, i>> => /\ st'.shapes[k2][j] = st.shapes[k2][j]
                                            /\ st'.applied[k2][j] = st.applied[k2][j]]_vars
+(* pressing buttons, hiding, typing a name and saving never touch shapes, masks or the document *)
+MasksFollowShapes ==
+    [][(st'.applied # st.applied \/ Doc(st') # Doc(st)) => st'.shapes # st.shapes]_vars
 GrowthOnlyBySecondClick ==
     [][Total(st') > Total(st) => /\ st.pending # <<>> /\ st'.pending = <<>>
                                  /\ Total(st') = Total(st) + Cardinality(st.active)]_vars
